@@ -192,6 +192,34 @@ def loop_assigned(st):
     return out
 
 
+def _run_while(self, I, st, fr):
+    """loop rule for `while guard: body` (partial correctness): invariant on entry; from an arbitrary state satisfying the
+    invariant either the guard holds - one execution of the body must re-establish the invariant - or it does not and
+    execution continues after the loop with invariant and negated guard.  `seq` and the iteration index are None."""
+    ctx = I.ctx
+    self.st = st
+    entry = self.snapshot(I, fr, None)
+    for label, t in self.inv(I, fr, entry, None, None):
+        ctx.oblige(f"{self.name()}:inv-init:{label}", t, kind="inv-init", info={"tags": sorted(self.tags)})
+    self.havoc(I, fr, entry, None)
+    for label, t in self.inv(I, fr, entry, None, None):
+        ctx.assume(t)
+    if I.branch_on(I.eval(st.test, fr)):
+        try:
+            I.exec_block(st.body, fr)
+        except _Continue:
+            pass
+        except _Break:
+            return
+        for label, t in self.inv(I, fr, entry, None, None):
+            ctx.oblige(f"{self.name()}:inv-step:{label}", t, kind="inv-step", info={"tags": sorted(self.tags)})
+        raise PathEnd()
+    I.exec_block(st.orelse, fr)
+
+
+LoopContract.run_while = _run_while
+
+
 def _target_read_after(fi, loop):
     import ast
     if fi is None:
